@@ -3,8 +3,8 @@ module verif/harness
 go 1.21
 
 require (
-	github.com/yandex/pandora v0.0.0
 	github.com/anishathalye/porcupine v1.3.0
+	github.com/yandex/pandora v0.0.0
 )
 
 require (
@@ -31,6 +31,7 @@ require (
 	go.uber.org/zap v1.27.0
 	golang.org/x/exp v0.0.0-20240222234643-814bf88cf225
 	golang.org/x/net v0.22.0
+	golang.org/x/text v0.14.0
 	golang.org/x/xerrors v0.0.0-20231012003039-104605ab7028
 	google.golang.org/grpc v1.62.0
 	google.golang.org/protobuf v1.33.0
@@ -70,7 +71,6 @@ require (
 	github.com/subosito/gotenv v1.4.2 // indirect
 	go.uber.org/multierr v1.11.0 // indirect
 	golang.org/x/sys v0.18.0 // indirect
-	golang.org/x/text v0.14.0 // indirect
 	google.golang.org/genproto/googleapis/rpc v0.0.0-20240304212257-790db918fca8 // indirect
 	gopkg.in/check.v1 v1.0.0-20201130134442-10cb98267c6c // indirect
 	gopkg.in/go-playground/assert.v1 v1.2.1 // indirect
